@@ -40,16 +40,26 @@ where
         .read_until(0, &mut user_id)
         .await
         .map_err(|e| Error::ProcessSocksRequest("read user id", e))?;
-    // Remove the null byte
-    user_id.pop();
+    // Remove the null byte; without it the request ended inside the user id
+    if user_id.pop() != Some(0) {
+        return Err(Error::ProcessSocksRequest(
+            "read user id",
+            std::io::ErrorKind::UnexpectedEof.into(),
+        ));
+    }
     let rhost = if ip >> 24 == 0 {
         let mut domain = Vec::new();
         reader
             .read_until(0, &mut domain)
             .await
             .map_err(|e| Error::ProcessSocksRequest("read domain", e))?;
-        // Remove the null byte
-        domain.pop();
+        // Remove the null byte; without it the request ended inside the domain
+        if domain.pop() != Some(0) {
+            return Err(Error::ProcessSocksRequest(
+                "read domain",
+                std::io::ErrorKind::UnexpectedEof.into(),
+            ));
+        }
         domain
     } else {
         Ipv4Addr::from(ip).to_string().into()
